@@ -85,6 +85,11 @@ def snapshot():
             for b in ("date", "nested_tables", "docgen"):
                 with open(os.path.join(bd, b + ".rs"), "w") as fh:
                     fh.write("fn main() {}\n")
+            # cargo decides freshness by mtime and shares fingerprints between copies of the same package in one target dir:
+            # make every source file of a new snapshot newer than anything built before
+            now = time.time()
+            for f in tree_files(d):
+                os.utime(f, (now, now))
             open(os.path.join(d, ".complete"), "w").close()
         # prune: keep the 4 most recent trees
         td = os.path.join(SCRATCH, "trees")
